@@ -724,7 +724,16 @@ def from_labels(labels):
             cur = None
         else:
             raise tlc.MachineryError('unknown label %s' % ev)
-    return hist
+    # once its event budgets are used up a simulated behaviour only repeats Sync:
+    # keep at most two plain syncs in a row (the second one checks idempotence)
+    out = []
+    for e in hist:
+        plain = e[0] == 'Sync' and not e[1]['conc'] and not e[1]['cut']
+        if plain and len(out) >= 2 and all(x[0] == 'Sync' and not x[1]['conc'] and not x[1]['cut']
+                                           for x in out[-2:]):
+            continue
+        out.append(e)
+    return out
 
 
 def gen_random(rng, insts=5):
